@@ -26,13 +26,16 @@ structure Sample where
   amt : Int
 deriving DecidableEq, Repr, Inhabited
 
-/-- `rich.progress.Task` (description and user `fields` are not modelled: no modelled statement reads them). -/
+/-- `rich.progress.Task`.  `description` is an opaque string id, `fields` the user dict in insertion
+order (keys are opaque ids). -/
 structure Task where
   id : Nat
+  description : Nat
   total : Int
   completed : Int
   finishedTime : Option Int
   visible : Bool
+  fields : List (Nat × Int)
   startTime : Option Int
   stopTime : Option Int
   /-- `_progress` deque, oldest first (no `maxlen`; pruned by hand in `update`/`advance`). -/
@@ -49,6 +52,10 @@ structure Cfg where
   /-- CODE VARIANT FLAG. `true`: `advance` and `reset` call `get_time()` *before* `with self._lock`
   (rich 9.10.0 as found); `false`: the read is the first statement under the lock (repair: fix b790bf0, what /repo contains now). -/
   clockOutside : Bool
+  /-- `get_time()` calls one `refresh()` makes per visible task: 0 when the console is not a terminal
+  (refresh does nothing), 5 for the default columns on a terminal (each of the 4 columns reads the clock
+  in `ProgressColumn.__call__`, `BarColumn.render` once more). -/
+  refreshReads : Nat
 deriving Repr
 
 inductive Err
@@ -156,7 +163,26 @@ structure UpdArgs where
   advance : Option Int
   visible : Option Bool
   refresh : Bool
+  description : Option Nat := none
+  /-- `**fields`, merged with `task.fields.update(fields)` -/
+  fields : List (Nat × Int) := []
 deriving Repr, DecidableEq
+
+/-- `d[k] = v` on an insertion-ordered dict -/
+def dictSet (k : Nat) (v : Int) : List (Nat × Int) → List (Nat × Int)
+  | [] => [(k, v)]
+  | kv :: r => if kv.1 = k then (k, v) :: r else kv :: dictSet k v r
+
+/-- `d.update(f)` -/
+def dictUpdate (d f : List (Nat × Int)) : List (Nat × Int) :=
+  f.foldl (fun d kv => dictSet kv.1 kv.2 d) d
+
+/-- number of visible tasks (rows `refresh()` renders) -/
+def visCount (l : List Task) : Nat := (l.filter (fun t => t.visible)).length
+
+/-- clock counter after one `refresh()` that renders `others` other visible tasks and this one -/
+def refreshK (cfg : Cfg) (others : Nat) (t : Task) (k : Nat) : Nat :=
+  k + cfg.refreshReads * (others + if t.visible then 1 else 0)
 
 /-- the assignments of `Progress.update` (progress.py:804-815) -/
 def Task.applyUpd (u : UpdArgs) (t : Task) : Task :=
@@ -169,29 +195,54 @@ def Task.applyUpd (u : UpdArgs) (t : Task) : Task :=
   let t3 := match u.completed with
     | some c => { t2 with completed := c }
     | none => t2
-  match u.visible with
-  | some v => { t3 with visible := v }
-  | none => t3
+  let t4 := match u.description with
+    | some d => { t3 with description := d }
+    | none => t3
+  let t5 := match u.visible with
+    | some v => { t4 with visible := v }
+    | none => t4
+  { t5 with fields := dictUpdate t5.fields u.fields }
 
-/-- `Progress.update` under the lock: the clock is read *inside*; a sample is appended only when
-`update_completed > 0`. (`refresh()` on a non-terminal console does nothing.) -/
-def Task.updateBody (cfg : Cfg) (clock : Clock) (u : UpdArgs) (t : Task) (k : Nat) : Task × Nat :=
+/-- `Progress.update` under the lock: `refresh()` (if asked for) comes *before* the clock read; the
+clock is read inside the lock; a sample is appended only when `update_completed > 0`. -/
+def Task.updateBody (cfg : Cfg) (clock : Clock) (u : UpdArgs) (others : Nat) (t : Task) (k : Nat) : Task × Nat :=
   let t' := t.applyUpd u
   let upd := t'.completed - t.completed
-  let now := clock k
+  let k0 := if u.refresh then refreshK cfg others t' k else k
+  let now := clock k0
   let s := prune cfg now t'.samples
-  Task.finishCheck clock { t' with samples := if 0 < upd then s ++ [⟨now, upd⟩] else s } (k + 1)
+  Task.finishCheck clock { t' with samples := if 0 < upd then s ++ [⟨now, upd⟩] else s } (k0 + 1)
+
+structure ResetArgs where
+  start : Bool
+  total : Option Int
+  completed : Int
+  visible : Option Bool
+  description : Option Nat := none
+  /-- `**fields`: *replaces* `task.fields` when non-empty -/
+  fields : List (Nat × Int) := []
+deriving Repr, DecidableEq
 
 /-- `Progress.reset` under the lock. Note: `stop_time` is *not* cleared. -/
-def Task.resetBody (now : Int) (start : Bool) (total : Option Int) (completed : Int)
-    (visible : Option Bool) (t : Task) : Task :=
+def Task.resetBody (now : Int) (r : ResetArgs) (t : Task) : Task :=
   { t with
     samples := []
     finishedTime := none
-    startTime := if start then some now else none
-    total := total.getD t.total
-    completed := completed
-    visible := visible.getD t.visible }
+    startTime := if r.start then some now else none
+    total := r.total.getD t.total
+    completed := r.completed
+    visible := r.visible.getD t.visible
+    fields := if r.fields.isEmpty then t.fields else r.fields
+    description := r.description.getD t.description }
+
+structure AddArgs where
+  start : Bool
+  total : Int
+  completed : Int
+  visible : Bool
+  description : Nat := 0
+  fields : List (Nat × Int) := []
+deriving Repr, DecidableEq
 
 /-! ## Progress state and operations -/
 
@@ -202,18 +253,26 @@ structure State where
   nextId : Nat
   /-- number of `get_time()` calls made so far -/
   clk : Nat
+  /-- `Progress._started` (the live display is on) -/
+  started : Bool := false
 deriving Repr, DecidableEq
 
 def State.empty : State := { tasks := [], nextId := 0, clk := 0 }
 
 inductive Op
-  | addTask (start : Bool) (total completed : Int) (visible : Bool)
+  | addTask (a : AddArgs)
   | startTask (id : Nat)
   | stopTask (id : Nat)
   | update (id : Nat) (u : UpdArgs)
-  | reset (id : Nat) (start : Bool) (total : Option Int) (completed : Int) (visible : Option Bool)
+  | reset (id : Nat) (r : ResetArgs)
   | advance (id : Nat) (amt : Int)
   | removeTask (id : Nat)
+  /-- `Progress.refresh()` (also what `_RefreshThread.run` calls after every wait) -/
+  | refresh
+  /-- `Progress.start()` -/
+  | start
+  /-- `Progress.stop()` -/
+  | stop
 deriving Repr, DecidableEq
 
 def lookup (l : List Task) (id : Nat) : Option Task := l.find? (fun t => t.id == id)
@@ -230,6 +289,9 @@ def Op.target : Op → Option Nat
   | .reset id .. => some id
   | .advance id _ => some id
   | .removeTask id => some id
+  | .refresh => none
+  | .start => none
+  | .stop => none
 
 /-- Does the operation call `get_time()` before `with self._lock`? -/
 def Op.readsOutside (cfg : Cfg) : Op → Bool
@@ -244,8 +306,9 @@ def nowOf (clock : Clock) (pre : Option Int) (k : Nat) : Int × Nat :=
   | some v => (v, k)
   | none => (clock k, k + 1)
 
-/-- effect of an operation on the task it addresses, with the clock counter -/
-def taskEffect (cfg : Cfg) (clock : Clock) (op : Op) (pre : Option Int) (t : Task) (k : Nat) : Task × Nat :=
+/-- effect of an operation on the task it addresses, with the clock counter; `others` is the number
+of *other* visible tasks (what a `refresh()` inside the operation renders besides this one) -/
+def taskEffect (cfg : Cfg) (clock : Clock) (op : Op) (pre : Option Int) (others : Nat) (t : Task) (k : Nat) : Task × Nat :=
   match op with
   | .startTask _ =>
     match t.startTime with
@@ -253,9 +316,10 @@ def taskEffect (cfg : Cfg) (clock : Clock) (op : Op) (pre : Option Int) (t : Tas
     | some _ => (t, k)
   | .stopTask _ =>
     ({ t with startTime := some (t.startTime.getD (clock k)), stopTime := some (clock k) }, k + 1)
-  | .update _ u => t.updateBody cfg clock u k
-  | .reset _ start total completed visible =>
-    ((t.resetBody (nowOf clock pre k).1 start total completed visible), (nowOf clock pre k).2)
+  | .update _ u => t.updateBody cfg clock u others k
+  | .reset _ r =>
+    (t.resetBody (nowOf clock pre k).1 r,
+     refreshK cfg others (t.resetBody (nowOf clock pre k).1 r) (nowOf clock pre k).2)
   | .advance _ amt => t.advanceBody cfg clock (nowOf clock pre k).1 amt (nowOf clock pre k).2
   | _ => (t, k)
 
@@ -276,13 +340,22 @@ deriving Repr, DecidableEq
 calling thread took before acquiring the lock, when the code does that. -/
 def body (cfg : Cfg) (clock : Clock) (op : Op) (pre : Option Int) (st : State) : Res :=
   match op with
-  | .addTask start total completed visible =>
+  | .addTask a =>
     let t : Task :=
-      { id := st.nextId, total := total, completed := completed, finishedTime := none,
-        visible := visible, startTime := if start then some (clock st.clk) else none,
+      { id := st.nextId, description := a.description, total := a.total, completed := a.completed,
+        finishedTime := none, visible := a.visible, fields := a.fields,
+        startTime := if a.start then some (clock st.clk) else none,
         stopTime := none, samples := [] }
+    let k1 := if a.start then st.clk + 1 else st.clk
     ⟨{ tasks := st.tasks ++ [t], nextId := st.nextId + 1,
-       clk := if start then st.clk + 1 else st.clk }, none⟩
+       clk := k1 + cfg.refreshReads * visCount (st.tasks ++ [t]), started := st.started }, none⟩
+  | .refresh => ⟨{ st with clk := st.clk + cfg.refreshReads * visCount st.tasks }, none⟩
+  | .start =>
+    if st.started then ⟨st, none⟩
+    else ⟨{ st with started := true, clk := st.clk + cfg.refreshReads * visCount st.tasks }, none⟩
+  | .stop =>
+    if st.started then ⟨{ st with started := false, clk := st.clk + cfg.refreshReads * visCount st.tasks }, none⟩
+    else ⟨st, none⟩
   | .removeTask id =>
     match lookup st.tasks id with
     | none => ⟨st, some .keyError⟩
@@ -294,7 +367,7 @@ def body (cfg : Cfg) (clock : Clock) (op : Op) (pre : Option Int) (st : State) :
       match lookup st.tasks id with
       | none => ⟨{ st with clk := clkOnError clock op pre st.clk }, some .keyError⟩
       | some t =>
-        let r := taskEffect cfg clock op pre t st.clk
+        let r := taskEffect cfg clock op pre (visCount (st.tasks.filter (fun x => x.id != id))) t st.clk
         ⟨{ st with tasks := setTask id r.1 st.tasks, clk := r.2 }, none⟩
 
 /-- the read before the lock, if the operation has one -/
@@ -315,8 +388,8 @@ def run (cfg : Cfg) (clock : Clock) : List Op → State → State
 /-- the operation that announces the total: a new task, or `update(task_id, total=…)` -/
 def trackOpen (taskId : Option Nat) (total : Int) : Op :=
   match taskId with
-  | none => .addTask true total 0 true
-  | some id => .update id ⟨some total, none, none, none, false⟩
+  | none => .addTask ⟨true, total, 0, true, 0, []⟩
+  | some id => .update id ⟨some total, none, none, none, false, none, []⟩
 
 /-- the id `track` works on (given the state in which it is called) -/
 def trackId (taskId : Option Nat) (st : State) : Nat := taskId.getD st.nextId
@@ -338,7 +411,17 @@ def trackWakes (id : Nat) : Int → List Int → List Op
 def trackThread {α : Type} (taskId : Option Nat) (total : Int) (xs : List α) (seen : List Int) (st : State) :
     List α × List Op :=
   (xs, trackOpen taskId total :: trackWakes (trackId taskId st) 0 seen ++
-        [Op.update (trackId taskId st) ⟨none, some xs.length, none, none, true⟩])
+        [Op.update (trackId taskId st) ⟨none, some xs.length, none, none, true, none, []⟩])
+
+/-- `_RefreshThread.run`: `while not done.wait(period): progress.refresh()` — `k` wake-ups -/
+def refreshThreadProg (k : Nat) : List Op := List.replicate k Op.refresh
+
+/-- operations of the live display: they render, they never touch a task -/
+def Op.isDisplay : Op → Bool
+  | .refresh => true
+  | .start => true
+  | .stop => true
+  | _ => false
 
 /-! ## threads: every operation is `[read clock]` then `atomic body` -/
 
